@@ -453,8 +453,9 @@ func (s *Set) ConfigProjection(v *simapi.View) map[string]interface{} {
 	}
 	out["canaryDeployments"] = canaries
 	if br := v.Get("BatchRelease", s.ns, s.S.RolloutName()); br != nil {
+		// (the batch state is progress, not configuration: it may be re-verifying at this instant)
 		out["batchRelease"] = map[string]interface{}{"batchPartition": simapi.Path(br, "spec.releasePlan.batchPartition"), "phase": simapi.Str(br, "status.phase"),
-			"currentBatch": simapi.IntD(br, "status.canaryStatus.currentBatch", 0), "batchState": simapi.Str(br, "status.canaryStatus.batchState")}
+			"currentBatch": simapi.IntD(br, "status.canaryStatus.currentBatch", 0)}
 	}
 	for _, n := range []string{s.stable, s.canary} {
 		if svc := v.Get("Service", s.ns, n); svc != nil {
